@@ -124,7 +124,7 @@ class Client(ModelObj):
                     "tell_blocking": "tell_blocking", "ask_blocking": "ask_blocking"}[k]
             to = mk_none() if k in ("btell", "bask") else mk_some(w.mk_duration(op[3]))
             saved = getattr(w, "plain_thread", False)
-            w.plain_thread = True
+            w.plain_thread = not getattr(self, "in_runtime", False)
             try:
                 if route and route != "direct" and meth in ("blocking_tell", "blocking_ask"):
                     fam = "tell" if meth == "blocking_tell" else "ask"
